@@ -147,6 +147,19 @@ func (t *sseClientTransport) start(ctx context.Context) error {
 	t.sseConn.cancel = cancel
 	t.sseConn.mutex.Unlock()
 
+	// The stream context outlives this call, but while the connection is being established the caller's
+	// context governs: its cancellation or deadline also aborts the GET and the reading of an error body,
+	// which would otherwise block for as long as the server stalls.
+	connected := make(chan struct{})
+	defer close(connected)
+	go func() {
+		select {
+		case <-ctx.Done():
+			cancel()
+		case <-connected:
+		}
+	}()
+
 	// Create request to establish SSE connection
 	req, err := http.NewRequestWithContext(sseCtx, http.MethodGet, t.baseURL.String(), nil)
 	if err != nil {
@@ -208,6 +221,10 @@ func (t *sseClientTransport) start(ctx context.Context) error {
 		t.started.Store(true)
 		return nil
 	case <-sseCtx.Done():
+		if ctx.Err() != nil {
+			t.close()
+			return fmt.Errorf("context cancelled while waiting for endpoint: %w", ctx.Err())
+		}
 		// readSSE ran close(): the event stream ended before the endpoint event arrived.
 		return errors.New("SSE stream ended before the endpoint event was received")
 	case <-ctx.Done():
